@@ -4,9 +4,9 @@
 From Coq Require Import ZArith List Bool.
 From HV Require Import Prelude.Py Prelude.State Spec.DynTable.
 From HV Require Import Model.Data Model.Table Model.Decoder Model.Prov.
-From HV Require Gen.GDecoder Gen.GInit.
+From HV Require Gen.GDecoder Gen.GInit Gen.GProv.
 From HV Require Import Proofs.Table Proofs.Prov.
-From HV Require Import Bridge.B_dec_decode Bridge.B_init_Decoder Bridge.S_C04.
+From HV Require Import Bridge.B_dec_decode Bridge.B_init_Decoder Bridge.S_C04 Bridge.B_prov.
 Import ListNotations.
 Open Scope Z_scope.
 
@@ -28,5 +28,16 @@ Theorem src_C17_retained_bounded : forall ops L,
   fold_right (fun e a => len (fst e) + len (snd e) + a) 0 t.(entries) <= Z.max 0 t.(maxsize) - 32 * len t.(entries).
 Proof. intros ops L. rewrite g_drun_eq, b_Decoder_init. exact (retained_bounded ops L). Qed.
 
+(** MAIN, with the copy flag INFERRED FROM THE SOURCE (Gen/GProv.v) in place of the literal [true]: after every
+    history every entry the decoder retains is an owned object, and so is every field it returns *)
+Theorem src_C17_entries_owned : forall ops L, all_owned (p_drun GProv.literal_copies ops (p_init L)).(ptags).
+Proof. rewrite b_literal_copies. exact entries_owned. Qed.
+Theorem src_C17_returned_owned : forall ops L data raw hs,
+  fst (p_decode GProv.literal_copies (p_drun GProv.literal_copies ops (p_init L)) data raw) = Ok hs ->
+  Forall (fun h => snd h = (Owned, Owned)) hs.
+Proof. rewrite b_literal_copies. exact returned_owned. Qed.
+
 Print Assumptions src_C17_erase.
+Print Assumptions src_C17_entries_owned.
+Print Assumptions src_C17_returned_owned.
 Print Assumptions src_C17_retained_bounded.
